@@ -234,6 +234,39 @@ def one_case(ctx, seed, idx):
                     ctx.distinct('signature_shapes', gen.shape_of(t[0]))
         if not proxy_acceptance(ctx, r, parsed, [d for _, d in pairs], w, case):
             return
+        if r.random() < 0.3:
+            # the exporter changes a declared interface AFTER its XML was generated once (members re-declared under the
+            # same name with other signatures, removed, added): the next XML describes the interface as it is now
+            live = pairs[0][0]
+            for _ in range(r.randint(1, 3)):
+                kind = r.choice(['redeclare-method', 'redeclare-signal', 'redeclare-property', 'add', 'delete'])
+                if kind == 'redeclare-method' and live.methods:
+                    n_ = r.choice(sorted(live.methods))
+                    live.addMethod(I.Method(n_, arguments=r.choice(['', 'i', 'sa{sv}', 'aai']), returns=r.choice(['', 's', 'ii'])))
+                elif kind == 'redeclare-signal' and live.signals:
+                    n_ = r.choice(sorted(live.signals))
+                    live.addSignal(I.Signal(n_, r.choice(['', 'u', '(ss)x'])))
+                elif kind == 'redeclare-property' and live.properties:
+                    n_ = r.choice(sorted(live.properties))
+                    live.addProperty(I.Property(n_, r.choice(['s', 'ai', 'a{sv}']), writeable=r.random() < 0.5))
+                elif kind == 'add':
+                    live.addMethod(I.Method('AddedLater%d' % r.randint(0, 3), arguments='s', returns='s'))
+                elif kind == 'delete' and live.methods:
+                    live.delMethod(r.choice(sorted(live.methods)))
+            ctx.count('interfaces_changed_after_first_xml')
+            xml2 = X.generateIntrospectionXML('/obj', exports)
+            try:
+                again = [i_ for i_ in X.getInterfacesFromXML(xml2, True) if i_.name == live.name]
+            except Exception as e:
+                ctx.report('parse-raised', 'getInterfacesFromXML raised %r on the XML of a changed interface' % e, w, case)
+                return
+            if len(again) != 1 or describe(again[0]) != describe(live):
+                w['xml_after_change'] = xml2[:2000]
+                w['declared_now'] = describe(live)
+                w['parsed_now'] = describe(again[0]) if again else None
+                ctx.report('stale-xml-after-redeclaration', 'after the exporter changed interface %s the introspection XML '
+                           'still describes an earlier state' % live.name, w, case)
+                return
         if use_real:
             missing = STANDARD - set(by_name)
             if missing:
